@@ -245,6 +245,9 @@ macro_rules! cache_harness {
              kani::stub(crossbeam_channel::Sender::try_send, chan::try_send),
              kani::stub(crossbeam_channel::Sender::send, chan::send),
              kani::stub(crossbeam_channel::Receiver::try_recv, chan::try_recv),
+             kani::stub(crossbeam_channel::Receiver::is_empty, chan::is_empty),
+             kani::stub(crossbeam_channel::Sender::is_empty, chan::s_is_empty),
+             kani::stub(crossbeam_channel::Sender::len, chan::s_len),
              kani::stub(crossbeam_channel::internal::try_select, chan::try_select),
              kani::stub(crossbeam_channel::SelectedOperation::send, chan::sel_send),
              kani::stub(wg::WaitGroup::wait, stubs::wg_wait),
@@ -932,9 +935,17 @@ static mut C10_P: *mut Parked<TransparentKeyBuilder<u64>> = std::ptr::null_mut()
 static mut C10_CLEAR_FIRST: bool = false;
 
 #[cfg(kani)]
+static mut C10_INFLIGHT: Option<Item<u64>> = None;
+
+#[cfg(kani)]
 fn c10_driver() {
     unsafe {
         let p = &mut *C10_P;
+        // an item the processor had already taken off the buffer when wait() was called
+        if let Some(Item::New { key, conflict, cost, value, expiration }) = C10_INFLIGHT.take() {
+            let r = p.proc_.handle_insert_event(Ok(Item::New { key, conflict, cost, value, expiration }));
+            assert!(r.is_ok(), "the in-flight item is applied");
+        }
         if C10_CLEAR_FIRST {
             // another thread's clear() lands after the marker was queued: the cleaner meets it
             assert!(p.cache.clear().is_ok(), "clear() returns Ok");
@@ -999,6 +1010,54 @@ cache_harness! {
     fn c10_wait_barrier() {
         #[cfg(kani)]
         c10_wait(false);
+    }
+}
+
+/// the processor has already taken the last insert off the buffer (so the buffer is empty) but has
+/// not applied it yet when wait() is called: wait() must still be a barrier for it
+#[cfg(kani)]
+fn c10_inflight() {
+    let cfg = any_cfg();
+    let (mut p, _a, _b, _ents) = any_parked_n(TransparentKeyBuilder::<u64>::default(), 0, cfg, Some(true), 1);
+    let k_ins = nd::any_u64();
+    let cost = nd::any_i64_in(0, 1 << 20);
+    nd::assume(raw(&p.store, k_ins).is_none());
+    nd::assume(p.policy.cap() >= cost + p.item_size() + (1 << 20));
+    match p.cache.try_update(k_ins, 2, cost, Duration::ZERO, false).unwrap() {
+        Some((_, it)) => {
+            vassert!(p.enqueue(it), "buffer has room");
+        }
+        None => {
+            vassert!(false, "an insert of an absent key queues a New item");
+        }
+    }
+    // the processor receives the item ...
+    let taken = p.proc_.insert_buf_rx.try_recv();
+    vassert!(taken.is_ok(), "the processor receives the item");
+    unsafe {
+        C10_INFLIGHT = taken.ok();
+        C10_P = &mut p as *mut _;
+        C10_CLEAR_FIRST = false;
+        stubs::WG_DRIVER = Some(c10_driver);
+        crate::policy::verif_harness::psync::CONTRACT_TRIVIAL = true;
+        crate::policy::verif_harness::psync::CONTRACT_ADMIT = true;
+    }
+    // ... and only now the client calls wait()
+    let r = p.cache.wait();
+    vassert!(r.is_ok(), "wait() returns Ok once the marker has been released");
+    vassert!(raw(&p.store, k_ins).map(|e| e.val) == Some(2) && p.policy.contains(&k_ins), "an insert the processor had already taken off the buffer is applied when wait() returns");
+    vcover!(true, "in-flight insert");
+    unsafe {
+        stubs::WG_DRIVER = None;
+    }
+    std::mem::forget(p);
+}
+
+cache_harness! {
+    [kani::unwind(7)]
+    fn c10_wait_inflight() {
+        #[cfg(kani)]
+        c10_inflight();
     }
 }
 
